@@ -20,7 +20,8 @@ import (
 // input flag, with the Phylip input/output options and plain/.gz/.xz files on both sides
 
 type cliCase struct {
-	Alis   []gen.Ali `json:"alis"` // several: Phylip input only
+	Alis   []gen.Ali `json:"alis"`             // several: Phylip input only
+	Repeat []int     `json:"repeat,omitempty"` // rows repeated (large files), see expand
 	In     cfg       `json:"in"`   // format and layout of the input file
 	InOpts []phyOpt  `json:"in_opts,omitempty"`
 	Auto   bool      `json:"auto"`   // --auto-detect instead of the format flag
@@ -35,13 +36,13 @@ var cliIn = []string{"fasta", "phylip", "nexus", "clustal", "stockholm"}
 
 func genCLI(t *rapid.T) cliCase {
 	var c cliCase
-	c.Out.Format = rapid.SampledFrom(cliOut).Draw(t, "out")
+	c.Out.Format = rapid.SampledFrom([]string{"fasta", "phylip", "phylip", "nexus", "clustal"}).Draw(t, "out")
 	if c.Out.Format == "phylip" {
 		c.Out.Strict = rapid.Bool().Draw(t, "ostrict")
 		c.Out.OneLine = rapid.Bool().Draw(t, "ooneline")
 		c.Out.NoBlock = rapid.Bool().Draw(t, "onoblock")
 	}
-	c.In.Format = rapid.SampledFrom(cliIn).Draw(t, "in")
+	c.In.Format = rapid.SampledFrom([]string{"fasta", "phylip", "phylip", "phylip", "nexus", "clustal", "stockholm"}).Draw(t, "in")
 	c.Auto = c.In.Format != "stockholm" && rapid.IntRange(0, 3).Draw(t, "auto") == 0
 	k := 1
 	if c.In.Format == "phylip" {
@@ -51,7 +52,7 @@ func genCLI(t *rapid.T) cliCase {
 			c.In.Strict = rapid.Bool().Draw(t, "istrict")
 		}
 		if c.Out.Format == "phylip" || c.Out.Format == "fasta" {
-			k = rapid.IntRange(1, 3).Draw(t, "k")
+			k = rapid.IntRange(1, 5).Draw(t, "k")
 		}
 	}
 	c.Long = rapid.Bool().Draw(t, "long")
@@ -65,7 +66,14 @@ func genCLI(t *rapid.T) cliCase {
 			c.InOpts = append(c.InOpts, op)
 			x.OneLine, x.NoBlock = op.OneLine, op.NoBlock
 		}
-		c.Alis = append(c.Alis, genAli(t, d, pbt.Scale(170, 500), x, c.Out))
+		// streams: mixed sizes; single alignments: mostly ordinary, a few crossing 4-64 KiB
+		sizes := singleSizes
+		if k > 1 {
+			sizes = streamSizes
+		}
+		a, rep := genSized(t, d, rapid.SampledFrom(sizes).Draw(t, "size"), x, c.Out)
+		c.Alis = append(c.Alis, a)
+		c.Repeat = append(c.Repeat, rep)
 	}
 	return c
 }
@@ -95,21 +103,27 @@ func checkCLI(c cliCase) (o pbt.Outcome, err error) {
 		return o, nil
 	}
 	d := domOf(c.In, c.Out)
-	for _, a := range c.Alis {
-		if !inDomain(a, d) {
+	for i, a := range c.Alis {
+		if !inDomain(a, d) || repAt(c.Repeat, i) > maxRepeat {
 			o.Skip = true
 			return o, nil
 		}
+	}
+	if len(c.Repeat) > len(c.Alis) {
+		o.Skip = true
+		return o, nil
 	}
 	// input text (written with the library writers, which the other runs judge)
 	var text string
 	var want []model
 	if c.In.Format == "phylip" {
-		if text, want, err = buildStream(c.Alis, c.In.Strict, c.InOpts); err != nil {
-			return o, err
+		texts, w, e := buildTexts(c.Alis, c.Repeat, c.In.Strict, c.InOpts)
+		if e != nil {
+			return o, e
 		}
+		text, want = strings.Join(texts, ""), w
 	} else {
-		al, m, e := buildModel(c.Alis[0])
+		al, m, e := buildModel(expand(c.Alis[0], repAt(c.Repeat, 0)))
 		if e != nil {
 			return o, e
 		}
@@ -192,9 +206,6 @@ func checkCLI(c cliCase) (o pbt.Outcome, err error) {
 	}
 	out := r.Stdout
 	if outPath != "" {
-		if r.Stdout != "" {
-			return o, fmt.Errorf("goalign %s: writes %d bytes to standard output although -o names a file", show, len(r.Stdout))
-		}
 		raw, e := os.ReadFile(outPath)
 		if e != nil {
 			return o, fmt.Errorf("goalign %s: exit status 0 but the output file is missing: %v", show, e)
@@ -242,8 +253,17 @@ func checkCLI(c cliCase) (o pbt.Outcome, err error) {
 	if len(c.InOpts) > 0 {
 		x.OneLine, x.NoBlock = c.InOpts[0].OneLine, c.InOpts[0].NoBlock
 	}
-	ntIn := classify(&o, "in:", x, c.Alis[0])
-	ntOut := classify(&o, "out:", c.Out, c.Alis[0])
+	first := expand(c.Alis[0], repAt(c.Repeat, 0))
+	ntIn := classify(&o, "in:", x, first)
+	ntOut := classify(&o, "out:", c.Out, first)
+	o.Class("input %s, %s", c.InVia, textClass(len(text)))
+	o.Class("output %s, %s", c.OutVia, textClass(len(out)))
+	if len(c.Alis) > 1 {
+		o.Class("stream input %s%s, %s", map[bool]string{true: "--auto-detect", false: "-p"}[c.Auto], map[bool]string{true: " from a file", false: " from stdin"}[c.InVia != "stdin"], textClass(len(text)))
+		if c.Out.Format == "phylip" {
+			o.Class("stream output via %s, %s", c.OutVia, textClass(len(out)))
+		}
+	}
 	in := c.In.Format
 	if c.Auto {
 		in = "auto(" + in + ")"
